@@ -32,8 +32,9 @@ def text_strategy(min_size, max_size, safe=False):
 
 
 class ValueGen:
-    def __init__(self, an, safe_strings=False, big_lengths=True):
+    def __init__(self, an, safe_strings=False, big_lengths=True, declared_share=7):
         self.an = an
+        self.declared_share = declared_share      # tenths of the enum values that are declared ordinals
         self.safe = safe_strings
         self.big = big_lengths
 
@@ -53,7 +54,7 @@ class ValueGen:
             if bias and draw(st.integers(0, 9)) < 7:
                 return draw(st.sampled_from(bias))
             declared = [v["ord"] for v in r["decl"]["values"] if v["ord"] < lim]
-            if declared and draw(st.integers(0, 9)) < 7:
+            if declared and draw(st.integers(0, 9)) < self.declared_share:
                 return draw(st.sampled_from(declared))
             return draw(int_strategy(lim))
         if k == "string":
@@ -67,6 +68,11 @@ class ValueGen:
             lo = max(0, lf.get("offset", 0))   # keeps len - offset >= 0
             if self.big and mx <= 300 and draw(st.integers(0, 19)) == 0:
                 return draw(text_strategy(max(lo, mx - 1), mx, True))
+            if self.big and mx >= 70000 and draw(st.integers(0, 29)) == 0:
+                # a three- or int-sized length field: texts longer than anything a short could count (pub files)
+                motif = draw(text_strategy(1, 5, True)) or "ab"
+                n = 64009 + draw(st.integers(0, 40))
+                return (motif * (n // len(motif) + 1))[:n]
             return draw(text_strategy(min(lo, mx), max(min(lo, mx), min(mx, lo + 6)), self.safe))
         if k == "blob":
             return draw(st.lists(st.sampled_from([0, 1, 0x41, 0xFE, 0xFF, 0x7E, 0x80]), max_size=6).map(bytes))
